@@ -232,6 +232,15 @@ example : (match rollbackTx exCtx exMined [] ⟨7, "B7"⟩ "Q" with
     AMap.get exMined.txrecs ("Q", ⟨7, "B7"⟩) = some ("B7", 0) ∧ exCtx.node.txByFileLoc ("B7", 0) = some exQ ∧
     exQ.cb = false ∧ exQ.id = "Q" ∧ AMap.get exMined.pending "Q" = none := by decide
 
+/-- … and that store is well-formed, Q respects the rank -/
+example : PendWF exRank exMined ∧ (∀ i ∈ exQ.ins, exRank i.tx < exRank "Q") := by
+  refine ⟨⟨fun _ _ h => ?_, fun _ _ h => ?_, fun _ _ h => ?_, fun _ h => ?_, fun _ _ h => ?_⟩, by decide⟩
+  · cases h
+  · obtain ⟨_, h, _⟩ := h; cases h
+  · cases h
+  · cases h
+  · cases h
+
 -- ------------------------------------------------------------------ what is NOT proved here
 
 /-- FULL statement of the history-level property (NOT proved; tied by the three-way correspondence on generated
